@@ -4,6 +4,7 @@ import (
 	"hash/fnv"
 	"path"
 	"strconv"
+	"sync"
 	"sync/atomic"
 
 	"github.com/internetarchive/Zeno/internal/pkg/verifhook"
@@ -19,6 +20,11 @@ type Seencheck struct {
 
 var (
 	globalSeencheck *Seencheck
+
+	// checkMu makes the lookup of a URL and the recording that follows one step: two workers
+	// checking the same URL at once would otherwise both miss it, and the later write could
+	// downgrade a "seed" record to "asset" (which lets the URL be fetched again as a seed)
+	checkMu sync.Mutex
 )
 
 func Start(jobPath string) (err error) {
@@ -96,12 +102,14 @@ func SeencheckItem(item *models.Item) error {
 			URLType = "seed"
 		}
 
+		checkMu.Lock()
 		found, foundType := isSeen(hash)
 		verifhook.At("seencheck.get", items[i].GetURL().String(), URLType, found, foundType)
 
 		if !found {
 			// First time seen: mark and process
 			seen(hash, URLType)
+			checkMu.Unlock()
 			h.Reset()
 			continue
 		}
@@ -109,9 +117,11 @@ func SeencheckItem(item *models.Item) error {
 		if foundType == "asset" && URLType == "seed" {
 			// Promotion: allow processing again as seed
 			seen(hash, "seed")
+			checkMu.Unlock()
 			h.Reset()
 			continue
 		}
+		checkMu.Unlock()
 
 		// All other cases: already seen, skip
 		items[i].SetStatus(models.ItemSeen)
